@@ -231,6 +231,16 @@ Definition render_logs (cfg : pconfig) (l : logs) : str :=
    line "out" (join ((if nonempty so then [s2l "1:" ++ hex_of_str so] else []) ++
                      (if nonempty se then [s2l "2:" ++ hex_of_str se] else [])) [59])).
 
+(* Option.IsSet / IsSetDefault of every option of the tree (built-in help option excepted) *)
+Definition render_set (w : world) : str :=
+  join (sort_strs (flat_map (fun oc : octx =>
+                               let o := oc_opt oc in
+                               let fl := rt_fl (w_rt w) (o_fid o) in
+                               if oc_builtin oc then []
+                               else [hex_of_str (o_field o) ++ [124] ++ hex_of_str (o_long o) ++ [124] ++ dec_of_N (o_short o) ++ [58] ++
+                                     (if f_isset fl then [49] else [48]) ++ (if f_isdefault fl then [49] else [48])])
+                            (tree_octxs (w_tree w)))) [59].
+
 Definition render_op (sc : scenario) (w : world) (opname : string) (panic : option str)
            (e : option err) (ret : option (list str)) (extra : str) : str :=
   line "op" (s2l opname) ++
@@ -241,6 +251,7 @@ Definition render_op (sc : scenario) (w : world) (opname : string) (panic : opti
   line "active" (render_active w) ++
   render_logs (sc_cfg sc) (rt_logs (w_rt w)) ++
   line "attached" (join (sort_strs (map (fun s => dec_of_N (N.of_nat s)) (w_attached w))) [44]) ++
+  line "set" (render_set w) ++
   extra.
 
 (* ---- the public model (exported fields of Option / Group / Command / Arg), for C19 *)
